@@ -1,1 +1,532 @@
-/-! # C11 — property theorems (stub) -/
+import Okane.Lemmas.Load
+import Okane.Model.Process
+/-!
+# C11 — includes expand in place, in order; splitting a ledger changes nothing
+
+All theorems are about `Okane.Load.loadFile` (the model of `Loader::load_impl`, generic in the `FileSystem`
+implementation `fs : FSI`, exactly like the Rust) and the substitution semantics `Okane.Load.expand`.
+-/
+namespace Okane.Load
+
+/-! ## what is delivered -/
+
+theorem mem_andThen_delivered {a : LoadRes} {b : Unit → LoadRes} {x : Path × Entry}
+    (h : x ∈ (a.andThen b).delivered) : x ∈ a.delivered ∨ x ∈ (b ()).delivered := by
+  by_cases h1 : a.status = .ok ()
+  · rw [(andThen_delivered_of_ok a b h1).1] at h
+    simpa using h
+  · rw [andThen_of_not_ok a b h1] at h
+    exact Or.inl h
+
+theorem loadEntries_forall (fs : FSI) (rec : Path → LoadRes) (cp : Path) (Q : Path × Entry → Prop)
+    (hrec : ∀ q, ∀ x ∈ (rec q).delivered, Q x) :
+    ∀ es, (∀ e ∈ es, isInclude e = false → Q (cp, e)) → ∀ x ∈ (loadEntriesWith fs rec cp es).delivered, Q x := by
+  have hlist : ∀ qs, ∀ x ∈ (loadListWith rec qs).delivered, Q x := by
+    intro qs
+    induction qs with
+    | nil => simp [loadListWith, LoadRes.done]
+    | cons q qs ih =>
+      intro x hx
+      simp only [loadListWith] at hx
+      rcases mem_andThen_delivered hx with h | h
+      · exact hrec q x h
+      · exact ih x h
+  have hincl : ∀ g, ∀ x ∈ (loadInclude fs rec cp g).delivered, Q x := by
+    intro g x hx
+    unfold loadInclude at hx
+    cases hp : parent cp with
+    | none => simp [hp, LoadRes.fail] at hx
+    | some dir =>
+      simp only [hp] at hx
+      cases hg : fs.glob (joinStr dir g) with
+      | ok paths =>
+        simp only [hg] at hx
+        by_cases he : paths.isEmpty = true
+        · simp [he, LoadRes.fail] at hx
+        · simp only [he] at hx
+          exact hlist _ x hx
+      | err e => simp [hg, LoadRes.fail] at hx
+      | panic s => simp [hg] at hx
+      | fuelOut => simp [hg] at hx
+  intro es
+  induction es with
+  | nil => simp [loadEntriesWith, LoadRes.done]
+  | cons e es ih =>
+    intro hes x hx
+    have ih' := ih (fun e' he' => hes e' (List.mem_cons_of_mem _ he'))
+    cases e with
+    | «include» g =>
+      simp only [loadEntriesWith] at hx
+      rcases mem_andThen_delivered hx with h | h
+      · exact hincl g x h
+      · exact ih' x h
+    | _ =>
+      simp only [loadEntriesWith, List.mem_cons] at hx
+      rcases hx with rfl | h
+      · exact hes _ (by simp) rfl
+      · exact ih' x h
+
+/-- Whatever the outcome, (a) the include line itself is never delivered and (b) every delivered entry is
+tagged with the canonical path of a readable file that contains it. -/
+theorem C11_delivered (fs : FSI) : ∀ n stack p, ∀ x ∈ (loadFile fs n stack p).delivered,
+    isInclude x.2 = false ∧ ∃ c, fs.read x.1 = .ok c ∧ x.2 ∈ c.entries := by
+  intro n
+  induction n with
+  | zero => intro stack p x hx; simp [loadFile] at hx
+  | succ n ih =>
+    intro stack p x hx
+    rw [loadFile] at hx
+    split at hx
+    · simp [LoadRes.fail] at hx
+    · split at hx
+      next content hr =>
+        rcases mem_andThen_delivered hx with h | h
+        · refine loadEntries_forall fs _ _ (fun x => isInclude x.2 = false ∧ ∃ c, fs.read x.1 = .ok c ∧ x.2 ∈ c.entries)
+            (fun q => ih _ q) content.entries ?_ x h
+          intro e he hne
+          exact ⟨hne, content, hr, he⟩
+        · split at h <;> simp [LoadRes.fail, LoadRes.done] at h
+      · simp [LoadRes.fail] at hx
+      · simp at hx
+      · simp at hx
+
+/-! ## C11_expand: a successful load delivers exactly the substitution expansion -/
+
+theorem loadFile_sound (fs : FSI) : ∀ n stack p, (loadFile fs n stack p).status = .ok () →
+    expand fs n p = some (loadFile fs n stack p).delivered := by
+  intro n
+  induction n with
+  | zero => intro stack p h; simp [loadFile] at h
+  | succ n ih =>
+    intro stack p h
+    rw [loadFile] at h ⊢
+    rw [expand]
+    by_cases hs : fs.canon p ∈ stack
+    · simp [hs, LoadRes.fail] at h
+    · simp only [hs, if_false] at h ⊢
+      cases hr : fs.read (fs.canon p) with
+      | ok content =>
+        simp only [hr] at h ⊢
+        rw [andThen_ok_iff] at h
+        have hd := andThen_delivered_of_ok _ (fun _ => if content.parseErr then LoadRes.fail (.parse (fs.canon p)) else LoadRes.done) h.1
+        rw [hd.1]
+        by_cases hp : content.parseErr = true
+        · simp [hp, LoadRes.fail] at h
+        · simp only [hp]
+          have := loadEntries_sound fs _ (expand fs n) (fun q hq => ih (fs.canon p :: stack) q hq) (fs.canon p)
+            content.entries h.1
+          simpa [LoadRes.done] using this
+      | err e => simp [hr, LoadRes.fail] at h
+      | panic s => simp [hr] at h
+      | fuelOut => simp [hr] at h
+
+/-- **C11_expand.**  If loading `root` succeeds, the callback sequence is the substitution expansion of `root`
+(each `include` replaced in place by the expansions of its sorted matches), for the fuel used and for every
+larger one; no `include` entry is delivered; every entry carries the path of the file that contains it. -/
+theorem C11_expand (fs : FSI) (fuel : Nat) (root : Path) (h : (load fs fuel root).status = .ok ()) :
+    (∀ m, fuel ≤ m → expand fs m root = some (load fs fuel root).delivered) ∧
+    (∀ x ∈ (load fs fuel root).delivered, isInclude x.2 = false ∧ ∃ c, fs.read x.1 = .ok c ∧ x.2 ∈ c.entries) :=
+  ⟨fun _ hm => expand_mono fs hm (loadFile_sound fs fuel [] root h), C11_delivered fs fuel [] root⟩
+
+/-! ## C11_split: a tree of files whose substitution expansion is `xs` loads as `xs` -/
+
+theorem expand_none_of_succ (fs : FSI) {n : Nat} {q : Path} (h : expand fs (n + 1) q = none) : expand fs n q = none := by
+  cases h' : expand fs n q with
+  | none => rfl
+  | some ys => rw [expand_succ fs n q ys h'] at h; cases h
+
+/-- completeness of the loader w.r.t. the substitution semantics, under any include stack none of whose
+members can itself be expanded within depth `n` (they are the files currently being expanded). -/
+theorem loadFile_complete (fs : FSI) (hc : ∀ p, fs.canon (fs.canon p) = fs.canon p) :
+    ∀ n p xs stack m, expand fs n p = some xs → (∀ q ∈ stack, expand fs n q = none) → n ≤ m →
+      loadFile fs m stack p = ⟨xs, .ok ()⟩ := by
+  intro n
+  induction n with
+  | zero => intro p xs stack m h; simp [expand] at h
+  | succ n ih =>
+    intro p xs stack m h hst hm
+    have hst' : ∀ q ∈ stack, expand fs n q = none := fun q hq => expand_none_of_succ fs (hst q hq)
+    cases hA : expand fs n p with
+    | some xs' =>
+      have := expand_succ fs n p xs' hA
+      rw [h] at this
+      cases this
+      exact ih p xs stack m hA hst' (by omega)
+    | none =>
+      obtain ⟨m', rfl⟩ : ∃ m', m = m' + 1 := ⟨m - 1, by omega⟩
+      have hcp : fs.canon p ∉ stack := by
+        intro hmem
+        have := hst _ hmem
+        rw [expand_canon fs hc, h] at this
+        cases this
+      rw [expand] at h
+      rw [loadFile]
+      simp only [hcp, if_false]
+      cases hr : fs.read (fs.canon p) with
+      | ok content =>
+        simp only [hr] at h ⊢
+        by_cases hp : content.parseErr = true
+        · simp [hp] at h
+        · simp only [hp] at h
+          have hrec : ∀ q ys, expand fs n q = some ys → loadFile fs m' (fs.canon p :: stack) q = ⟨ys, .ok ()⟩ := by
+            intro q ys hq
+            refine ih q ys _ m' hq ?_ (by omega)
+            intro q' hq'
+            rcases List.mem_cons.1 hq' with rfl | hq'
+            · rw [expand_canon fs hc]; exact hA
+            · exact hst' q' hq'
+          rw [loadEntries_complete fs _ (expand fs n) hrec (fs.canon p) content.entries xs h]
+          simp [LoadRes.andThen, hp, LoadRes.done]
+      | err e => simp [hr] at h
+      | panic s => simp [hr] at h
+      | fuelOut => simp [hr] at h
+
+/-- **load = expand.**  With an idempotent `canonicalize_path`, loading succeeds with callback sequence `xs`
+exactly when the substitution expansion is defined and equals `xs`. -/
+theorem C11_load_eq_expand (fs : FSI) (hc : ∀ p, fs.canon (fs.canon p) = fs.canon p) (fuel : Nat) (root : Path)
+    (xs : Tagged) : load fs fuel root = ⟨xs, .ok ()⟩ ↔ expand fs fuel root = some xs := by
+  constructor
+  · intro h
+    have hs : (load fs fuel root).status = .ok () := by rw [h]
+    have := loadFile_sound fs fuel [] root hs
+    unfold load at h
+    rw [h] at this
+    exact this
+  · intro h
+    exact loadFile_complete fs hc fuel root xs [] fuel h (by simp) (Nat.le_refl _)
+
+/-! ### cutting -/
+
+theorem expandEntries_append (fs : FSI) (rec : Path → Option Tagged) (cp : Path) :
+    ∀ (as bs : List Entry), expandEntriesWith fs rec cp (as ++ bs) =
+      match expandEntriesWith fs rec cp as, expandEntriesWith fs rec cp bs with
+      | some a, some b => some (a ++ b)
+      | _, _ => none := by
+  intro as bs
+  induction as with
+  | nil => cases h : expandEntriesWith fs rec cp bs <;> simp [expandEntriesWith, h]
+  | cons e as ih =>
+    cases e with
+    | «include» g =>
+      simp only [List.cons_append, expandEntriesWith, ih]
+      cases expandInclude fs rec cp g <;> cases expandEntriesWith fs rec cp as <;>
+        cases expandEntriesWith fs rec cp bs <;> simp
+    | _ =>
+      simp only [List.cons_append, expandEntriesWith, ih]
+      cases expandEntriesWith fs rec cp as <;> cases expandEntriesWith fs rec cp bs <;> simp
+
+/-- entries that are not includes expand to themselves, tagged with the file. -/
+theorem expandEntries_plain (fs : FSI) (rec : Path → Option Tagged) (cp : Path) :
+    ∀ es : List Entry, (∀ e ∈ es, isInclude e = false) → expandEntriesWith fs rec cp es = some (es.map fun e => (cp, e)) := by
+  intro es
+  induction es with
+  | nil => intro _; rfl
+  | cons e es ih =>
+    intro h
+    have ih' := ih (fun e' he' => h e' (List.mem_cons_of_mem _ he'))
+    cases e with
+    | «include» g => have := h (.include g) (by simp); simp [isInclude] at this
+    | _ => simp [expandEntriesWith, ih']
+
+/-- the expansions of a list of files, concatenated in the given order. -/
+def ExpandsTo (rec : Path → Option Tagged) : List Path → List Tagged → Prop
+  | [], [] => True
+  | q :: qs, piece :: pieces => rec q = some piece ∧ ExpandsTo rec qs pieces
+  | _, _ => False
+
+theorem expandList_eq (rec : Path → Option Tagged) :
+    ∀ (qs : List Path) (pieces : List Tagged), ExpandsTo rec qs pieces →
+      expandListWith rec qs = some pieces.flatten := by
+  intro qs
+  induction qs with
+  | nil => intro pieces h; cases pieces <;> simp_all [ExpandsTo, expandListWith]
+  | cons q qs ih =>
+    intro pieces h
+    cases pieces with
+    | nil => simp [ExpandsTo] at h
+    | cons piece pieces =>
+      simp only [ExpandsTo] at h
+      simp [expandListWith, h.1, ih pieces h.2]
+
+/-- **C11_cut (one cut).**  Take a file's entry list `pre ++ seg ++ post` (`seg` free of includes), move `seg` into
+other files and put `include g` in its place, where the sorted matches of `g` (relative to the file's directory) are
+files whose expansions, concatenated in that order, read `seg`.  The expansion of the file reads the same entries as
+before.  (`rec` is the expansion of the other files — the statement composes: the pieces may themselves have been cut,
+include through `..`, or be matched by a glob.) -/
+theorem C11_cut (fs : FSI) (rec : Path → Option Tagged) (cp dir : Path) (g : String) (pre seg post : List Entry)
+    (paths : List Path) (pieces : List Tagged)
+    (hdir : parent cp = some dir) (hglob : fs.glob (joinStr dir g) = .ok paths) (hne : paths ≠ [])
+    (hpieces : ExpandsTo rec (sortPaths paths) pieces)
+    (hseg : untag pieces.flatten = seg) (hplain : ∀ e ∈ seg, isInclude e = false) :
+    (expandEntriesWith fs rec cp (pre ++ .include g :: post)).map untag =
+      (expandEntriesWith fs rec cp (pre ++ seg ++ post)).map untag := by
+  have hinc : expandInclude fs rec cp g = some pieces.flatten := by
+    unfold expandInclude
+    have : paths.isEmpty = false := by cases paths <;> simp_all
+    simp [hdir, hglob, this, expandList_eq rec _ _ hpieces]
+  rw [List.append_assoc, expandEntries_append, expandEntries_append fs rec cp pre (seg ++ post),
+    expandEntries_append fs rec cp seg post, expandEntries_plain fs rec cp seg hplain]
+  simp only [expandEntriesWith, hinc]
+  cases expandEntriesWith fs rec cp pre <;> cases expandEntriesWith fs rec cp post <;>
+    simp [untag, ← hseg, List.map_map, Function.comp_def]
+
+/-- **C11_split.**  Two file trees (e.g. a ledger in one file, and the same ledger cut into a tree of files) whose
+substitution expansions read the same entries: both load successfully, with any fuel at least the nesting depth, the
+callbacks receive the same entry sequence, and therefore `process` — and every report, each being a function of the
+delivered entry list — gives the same result. -/
+theorem C11_split (fs₁ fs₂ : FSI) (hc₁ : ∀ p, fs₁.canon (fs₁.canon p) = fs₁.canon p)
+    (hc₂ : ∀ p, fs₂.canon (fs₂.canon p) = fs₂.canon p) (r₁ r₂ : Path) (n₁ n₂ : Nat) (xs₁ xs₂ : Tagged)
+    (h₁ : expand fs₁ n₁ r₁ = some xs₁) (h₂ : expand fs₂ n₂ r₂ = some xs₂) (heq : untag xs₁ = untag xs₂)
+    (m₁ m₂ : Nat) (hm₁ : n₁ ≤ m₁) (hm₂ : n₂ ≤ m₂) :
+    (load fs₁ m₁ r₁).status = .ok () ∧ (load fs₂ m₂ r₂).status = .ok () ∧
+    untag (load fs₁ m₁ r₁).delivered = untag (load fs₂ m₂ r₂).delivered ∧
+    process (untag (load fs₁ m₁ r₁).delivered) = process (untag (load fs₂ m₂ r₂).delivered) := by
+  have e₁ := loadFile_complete fs₁ hc₁ n₁ r₁ xs₁ [] m₁ h₁ (by simp) hm₁
+  have e₂ := loadFile_complete fs₂ hc₂ n₂ r₂ xs₂ [] m₂ h₂ (by simp) hm₂
+  unfold load
+  rw [e₁, e₂]
+  simp [heq]
+
+/-- a ledger kept in one file without includes expands to itself. -/
+theorem expand_single (fs : FSI) (p : Path) (es : List Entry) (hr : fs.read (fs.canon p) = .ok ⟨es, false⟩)
+    (hplain : ∀ e ∈ es, isInclude e = false) (n : Nat) :
+    expand fs (n + 1) p = some (es.map fun e => (fs.canon p, e)) := by
+  simp [expand, hr, expandEntries_plain fs _ _ es hplain]
+
+/-! ## C11_empty -/
+
+/-- **C11_empty.**  An include whose pattern matches nothing stops the load with `IO(NotFound)`; nothing after it
+is delivered, and the expansion is undefined. -/
+theorem C11_empty (fs : FSI) (rec : Path → LoadRes) (cp dir : Path) (g : String) (pre post : List Entry)
+    (hdir : parent cp = some dir) (hglob : fs.glob (joinStr dir g) = .ok [])
+    (hpre : ∀ e ∈ pre, isInclude e = false) :
+    loadEntriesWith fs rec cp (pre ++ .include g :: post) =
+      ⟨pre.map fun e => (cp, e), .err (.io .notFound (parsePath (joinStr dir g)))⟩ := by
+  induction pre with
+  | nil => simp [loadEntriesWith, loadInclude, hdir, hglob, LoadRes.fail, LoadRes.andThen]
+  | cons e pre ih =>
+    have ih' := ih (fun e' he' => hpre e' (List.mem_cons_of_mem _ he'))
+    cases e with
+    | «include» g' => have := hpre (.include g') (by simp); simp [isInclude] at this
+    | _ => simp [loadEntriesWith, ih']
+
+theorem C11_empty_load (fs : FSI) (n : Nat) (stack : List Path) (p dir : Path) (g : String) (pre post : List Entry)
+    (perr : Bool) (hs : fs.canon p ∉ stack) (hr : fs.read (fs.canon p) = .ok ⟨pre ++ .include g :: post, perr⟩)
+    (hdir : parent (fs.canon p) = some dir) (hglob : fs.glob (joinStr dir g) = .ok [])
+    (hpre : ∀ e ∈ pre, isInclude e = false) :
+    (loadFile fs (n + 1) stack p).status = .err (.io .notFound (parsePath (joinStr dir g))) ∧
+    (loadFile fs (n + 1) stack p).delivered = pre.map fun e => (fs.canon p, e) := by
+  rw [loadFile]
+  simp only [hs, if_false, hr, C11_empty fs _ _ dir g pre post hdir hglob hpre]
+  simp [LoadRes.andThen]
+
+/-! ## C11_order -/
+
+theorem compLt_irrefl (a : Comp) : compLt a a = false := by
+  cases a <;> simp [compLt, String.lt_irrefl]
+
+theorem compLt_trans {a b c : Comp} (h1 : compLt a b = true) (h2 : compLt b c = true) : compLt a c = true := by
+  cases a <;> cases b <;> cases c <;> simp_all [compLt, Comp.rank]
+  exact String.lt_trans h1 h2
+
+theorem compLt_asymm {a b : Comp} (h1 : compLt a b = true) : compLt b a = false := by
+  cases h : compLt b a with
+  | false => rfl
+  | true => have := compLt_trans h1 h; rw [compLt_irrefl] at this; cases this
+
+/-- two components neither of which is below the other are equal (`Ord for Component` is a total order). -/
+theorem compLt_total {a b : Comp} (h1 : compLt a b = false) (h2 : compLt b a = false) : a = b := by
+  cases a <;> cases b <;> simp_all [compLt, Comp.rank]
+  rename_i s t
+  exact String.le_antisymm (String.not_lt.1 h2) (String.not_lt.1 h1)
+
+theorem compLt_trans_eq {a b c : Comp} (h1 : compLt a b = false) (h2 : compLt b a = false) :
+    compLt a c = compLt b c ∧ compLt c a = compLt c b := by
+  rw [compLt_total h1 h2]; exact ⟨rfl, rfl⟩
+
+theorem pathLe_total : ∀ p q : Path, (pathLe p q || pathLe q p) = true := by
+  intro p
+  induction p with
+  | nil => intro q; simp [pathLe]
+  | cons a as ih =>
+    intro q
+    cases q with
+    | nil => simp [pathLe]
+    | cons b bs =>
+      simp only [pathLe]
+      by_cases h1 : compLt a b = true
+      · simp [h1]
+      · by_cases h2 : compLt b a = true
+        · simp [h2]
+        · simp only [h1, h2]; exact ih bs
+
+theorem pathLe_trans : ∀ p q r : Path, pathLe p q = true → pathLe q r = true → pathLe p r = true := by
+  intro p
+  induction p with
+  | nil => intros; simp [pathLe]
+  | cons a as ih =>
+    intro q r h1 h2
+    cases q with
+    | nil => simp [pathLe] at h1
+    | cons b bs =>
+      cases r with
+      | nil => simp [pathLe] at h2
+      | cons c cs =>
+        simp only [pathLe] at h1 h2 ⊢
+        by_cases hab : compLt a b = true
+        · by_cases hbc : compLt b c = true
+          · simp [compLt_trans hab hbc]
+          · simp only [hbc] at h2
+            by_cases hcb : compLt c b = true
+            · simp [hcb] at h2
+            · have hbceq := compLt_total (by simpa using hbc) (by simpa using hcb)
+              subst hbceq
+              simp [hab]
+        · simp only [hab] at h1
+          by_cases hba : compLt b a = true
+          · simp [hba] at h1
+          · have habeq := compLt_total (by simpa using hab) (by simpa using hba)
+            subst habeq
+            simp only [hba] at h1
+            by_cases hbc : compLt a c = true
+            · simp [hbc]
+            · simp only [hbc] at h2 ⊢
+              by_cases hcb : compLt c a = true
+              · simp [hcb] at h2
+              · simp only [hcb] at h2 ⊢
+                exact ih bs cs h1 h2
+
+theorem insertPath_perm (p : Path) : ∀ qs, (insertPath p qs).Perm (p :: qs) := by
+  intro qs
+  induction qs with
+  | nil => simp [insertPath]
+  | cons q qs ih =>
+    simp only [insertPath]
+    split
+    · exact List.Perm.refl _
+    · exact (List.Perm.cons q ih).trans (List.Perm.swap p q qs)
+
+theorem sortPaths_perm : ∀ ps, (sortPaths ps).Perm ps := by
+  intro ps
+  induction ps with
+  | nil => exact List.Perm.refl _
+  | cons p ps ih => exact (insertPath_perm p _).trans (List.Perm.cons p ih)
+
+theorem insertPath_sorted (p : Path) : ∀ qs, qs.Pairwise (fun a b => pathLe a b = true) →
+    (insertPath p qs).Pairwise (fun a b => pathLe a b = true) := by
+  intro qs
+  induction qs with
+  | nil => intro _; simp [insertPath]
+  | cons q qs ih =>
+    intro h
+    have hq := List.pairwise_cons.1 h
+    simp only [insertPath]
+    split
+    next hpq =>
+      refine List.pairwise_cons.2 ⟨?_, h⟩
+      intro x hx
+      rcases List.mem_cons.1 hx with rfl | hx
+      · exact hpq
+      · exact pathLe_trans _ _ _ hpq (hq.1 x hx)
+    next hpq =>
+      have hqp : pathLe q p = true := by
+        have := pathLe_total p q
+        simp only [Bool.or_eq_true] at this
+        rcases this with h | h
+        · exact absurd h hpq
+        · exact h
+      refine List.pairwise_cons.2 ⟨?_, ih hq.2⟩
+      intro x hx
+      rcases List.mem_cons.1 ((insertPath_perm p qs).subset hx) with rfl | hx
+      · exact hqp
+      · exact hq.1 x hx
+
+/-- **C11_order (1).**  The matches of an include are visited in ascending component-wise path order (`Ord for PathBuf`),
+each exactly once, whatever order the file system enumerates them in. -/
+theorem C11_order_sorted (ps : List Path) :
+    (sortPaths ps).Pairwise (fun a b => pathLe a b = true) ∧ (sortPaths ps).Perm ps := by
+  refine ⟨?_, sortPaths_perm ps⟩
+  induction ps with
+  | nil => simp [sortPaths]
+  | cons p ps ih => exact insertPath_sorted p _ ih
+
+/-- **C11_order (2).**  The callbacks of one include are the callbacks of its matches, concatenated in that order,
+placed where the include line stood (between the entries before and after it). -/
+theorem C11_order_in_place (fs : FSI) (rec : Path → LoadRes) (cp dir : Path) (g : String) (pre post : List Entry)
+    (paths : List Path) (hdir : parent cp = some dir) (hglob : fs.glob (joinStr dir g) = .ok paths) (hne : paths ≠ [])
+    (hpre : ∀ e ∈ pre, isInclude e = false) (hpost : ∀ e ∈ post, isInclude e = false)
+    (hall : ∀ q ∈ paths, (rec q).status = .ok ()) :
+    loadEntriesWith fs rec cp (pre ++ .include g :: post) =
+      ⟨pre.map (fun e => (cp, e)) ++ (sortPaths paths).flatMap (fun q => (rec q).delivered) ++ post.map (fun e => (cp, e)),
+       .ok ()⟩ := by
+  have hlist : ∀ qs, (∀ q ∈ qs, (rec q).status = .ok ()) →
+      loadListWith rec qs = ⟨qs.flatMap (fun q => (rec q).delivered), .ok ()⟩ := by
+    intro qs
+    induction qs with
+    | nil => intro _; rfl
+    | cons q qs ih =>
+      intro h
+      have h1 := h q (by simp)
+      have ih' := ih (fun q' hq' => h q' (List.mem_cons_of_mem _ hq'))
+      simp only [loadListWith]
+      apply LoadRes.ext'
+      · rw [(andThen_delivered_of_ok _ _ h1).1, ih']; simp
+      · rw [(andThen_delivered_of_ok _ _ h1).2, ih']
+  have hplain : ∀ es : List Entry, (∀ e ∈ es, isInclude e = false) →
+      loadEntriesWith fs rec cp es = ⟨es.map (fun e => (cp, e)), .ok ()⟩ := by
+    intro es
+    induction es with
+    | nil => intro _; rfl
+    | cons e es ih =>
+      intro h
+      have ih' := ih (fun e' he' => h e' (List.mem_cons_of_mem _ he'))
+      cases e with
+      | «include» g' => have := h (.include g') (by simp); simp [isInclude] at this
+      | _ => simp [loadEntriesWith, ih']
+  have hsorted : ∀ q ∈ sortPaths paths, (rec q).status = .ok () :=
+    fun q hq => hall q ((sortPaths_perm paths).subset hq)
+  have hempty : paths.isEmpty = false := by cases paths <;> simp_all
+  induction pre with
+  | nil =>
+    simp [loadEntriesWith, loadInclude, hdir, hglob, hempty, hlist _ hsorted, hplain post hpost, LoadRes.andThen]
+  | cons e pre ih =>
+    have ih' := ih (fun e' he' => hpre e' (List.mem_cons_of_mem _ he'))
+    cases e with
+    | «include» g' => have := hpre (.include g') (by simp); simp [isInclude] at this
+    | _ => simp [loadEntriesWith, ih']
+
+/-- a pattern (component) that can match a leading dot: after any number of `*`, its next token is a literal dot. -/
+def dotOpen (o : GlobOpts) : List Tok → Bool
+  | .star :: ts => dotOpen o ts
+  | .lit c :: _ => charsEq o '.' c
+  | _ => false
+
+/-- **C11_order (3): dot-files.**  With `require_literal_leading_dot`, a name that starts with `.` is matched only by a
+pattern that spells that dot literally: `?` never matches it, `*` can only match the empty string in front of it. -/
+theorem C11_dotfile (o : GlobOpts) (hdot : o.literalLeadingDot = true) :
+    ∀ (ts : List Tok) (rest : List Char), dotOpen o ts = false → matchToks o ts ('.' :: rest) true = false := by
+  intro ts
+  induction ts with
+  | nil => intros; simp [matchToks]
+  | cons t ts ih =>
+    intro rest h
+    cases t with
+    | lit c => simp only [dotOpen] at h; simp [matchToks, h]
+    | any => simp [matchToks, hdot]
+    | star =>
+      simp only [dotOpen] at h
+      simp [matchToks, starLoop, hdot, ih rest h]
+
+/-- the same after a separator inside a path pattern. -/
+theorem C11_dotfile_in_path (o : GlobOpts) (hdot : o.literalLeadingDot = true) (ts : List Tok) (rest : List Char)
+    (sep : Bool) (h : dotOpen o ts = false) : matchToks o (.lit '/' :: ts) ('/' :: '.' :: rest) sep = false := by
+  simp [matchToks, C11_dotfile o hdot ts rest h]
+
+/-- with `require_literal_separator`, `*` and `?` never match a `/`: wildcards stay inside one path component. -/
+theorem C11_wildcard_no_separator (o : GlobOpts) (hsep : o.literalSeparator = true) (ts : List Tok) (rest : List Char)
+    (sep : Bool) :
+    matchToks o (.any :: ts) ('/' :: rest) sep = false ∧
+    matchToks o (.star :: ts) ('/' :: rest) sep = matchToks o ts ('/' :: rest) sep := by
+  simp [matchToks, starLoop, hsep]
+
+end Okane.Load
